@@ -78,7 +78,7 @@ def master_spec(rng):
     return "P:%s:%s:0:0:0:none" % (hx(k.to_bytes(32, "big")), hx(chain))
 
 
-def cases(rng, tier):
+def _cases_core(rng, tier):
     masters = [master_spec(rng) for _ in range(2 if tier == "quick" else 40)]
     good_idx = [0, 1, H - 1]
     bad_idx = [-1, -2, -H, H, H + 1, 2 ** 32, 2 ** 32 - 1]
@@ -157,3 +157,9 @@ def literal_ops(lit):
         yield "bip85 %s %s %d %d -" % (m, app, param, lit)
     for app in ("hex", "pwd", "mnemonic"):
         yield "bip85 %s %s %d 0 -" % (m, app, lit)
+
+
+def cases(rng, tier):
+    from . import extra
+    yield from _cases_core(rng, tier)
+    yield from extra.cases_for('bip85obj', rng, tier)
